@@ -6,6 +6,6 @@ Extraction Language OCaml.
 Set Extraction KeepSingleton.
 Extraction "model.ml"
   enc dec fresh osize hsize all_fields all_classes scan_p find_field find_class
-  factory_table format_table object_types method_names
+  factory_table format_table object_types method_names fid_objectType fid_objectSize fid_headerSize object_classes
   mk_ustream mk_fstream s_read s_seek prog_of
   Z.of_nat Z.to_nat Z.add Z.mul Z.sub Z.div Z.modulo Z.compare Z.eqb Z.ltb Z.opp Z.div_eucl.
